@@ -37,6 +37,9 @@ Explained(e) ==
     \* resize re-interprets the storage (the property is silent on what it keeps): only the new geometry is demanded;
     \* whatever the object then holds is the operand of the following events
     [] e.op = "resize" -> ~e.panic /\ WellFormedB(e.post) /\ e.post.n = e.n2 /\ e.post.m1 = e.m1 /\ e.post.m2 = e.m2
+    [] e.op = "empty" -> ~e.panic /\ e.post.n = 0
+    \* every in-band entry assigned through the index operator: the matrix is then the band of the given dense values
+    [] e.op = "set_all" -> GoodB(e, FromDense(e.vals, e.pre.m1, e.pre.m2))
     [] e.op = "fill" -> GoodB(e, BFill(e.pre, e.x))
     [] e.op = "fill_band" -> IF Acc_FillBand(e.pre, e.kb) THEN GoodB(e, BFillBand(e.pre, e.kb, e.x)) ELSE e.panic
     [] e.op = "neg" -> GoodRB(e, BNeg(e.pre))
@@ -92,12 +95,14 @@ IsSeq(e) == Has(e, "seq")
 ImPart(e) == Has(e, "part") /\ e.part = "im"
 TwoParts(e) == Has(e, "prei")
 \* the operand the implementation worked on must be the model's current value (in band)
-PreOK(e) == IF ~IsSeq(e) \/ e.op = "built" THEN TRUE
+\* (empty / resize replace or re-interpret the storage: their outcome does not depend on the in-band content before)
+PreOK(e) == IF ~IsSeq(e) \/ e.op \in {"built", "empty", "resize"} THEN TRUE
             ELSE IF TwoParts(e) THEN SameBand(e.pre, cur) /\ SameBand(e.prei, curi)
             ELSE IF ImPart(e) THEN SameBand(e.pre, curi) ELSE SameBand(e.pre, cur)
 \* the model's next value after a mutating operation (one part)
-Mutators == {"set", "fill", "fill_band", "add_assign", "sub_assign", "mul_assign", "div_assign", "add_scalar_assign", "sub_scalar_assign"}
+Mutators == {"set", "set_all", "fill", "fill_band", "add_assign", "sub_assign", "mul_assign", "div_assign", "add_scalar_assign", "sub_scalar_assign"}
 After(e) == CASE e.op = "set" -> BSet(e.pre, e.i, e.j, e.x)
+              [] e.op = "set_all" -> FromDense(e.vals, e.pre.m1, e.pre.m2)
               [] e.op = "fill" -> BFill(e.pre, e.x)
               [] e.op = "fill_band" -> BFillBand(e.pre, e.kb, e.x)
               [] e.op = "add_assign" -> BAdd(e.pre, e.b)
@@ -111,7 +116,7 @@ NextPart(e, v, ok) ==
     IF e.op = "built" THEN (IF e.panic THEN v ELSE e.want)
     ELSE IF ~ok THEN (IF Has(e, "post") THEN e.post ELSE v)                 \* re-synchronise on the logged state
     ELSE IF e.op \in Mutators THEN After(e)
-    ELSE IF e.op \in {"resize", "new"} THEN e.post
+    ELSE IF e.op \in {"resize", "new", "empty"} THEN e.post
     ELSE v
 Unjudged(e) == IsSeq(e) /\ e.cid = bad /\ e.op \in {"det", "solve", "det_cx", "solve_cx"}
 
